@@ -27,6 +27,7 @@ type AuthRequest struct {
 	DoneFlag                  bool
 	AuthTime                  time.Time
 	Code                      string
+	Tenant                    string // the issuer the request was made under ("" unless Store.MultiTenant)
 }
 
 var _ op.AuthRequest = (*AuthRequest)(nil)
@@ -55,7 +56,7 @@ func (a *AuthRequest) GetAMR() []string {
 
 var errNoAuthRequest = errors.New("auth request not found")
 
-func (s *Store) CreateAuthRequest(_ context.Context, r *oidc.AuthRequest, userID string) (op.AuthRequest, error) {
+func (s *Store) CreateAuthRequest(ctx context.Context, r *oidc.AuthRequest, userID string) (op.AuthRequest, error) {
 	if err := s.enter("CreateAuthRequest", r.ClientID, userID); err != nil {
 		return nil, err
 	}
@@ -77,6 +78,7 @@ func (s *Store) CreateAuthRequest(_ context.Context, r *oidc.AuthRequest, userID
 		Prompt:       slices.Clone([]string(r.Prompt)),
 		LoginHint:    r.LoginHint,
 		Subject:      userID,
+		Tenant:       s.tenant(ctx),
 	}
 	if r.CodeChallenge != "" {
 		a.CodeChallenge = &oidc.CodeChallenge{Challenge: r.CodeChallenge, Method: r.CodeChallengeMethod}
@@ -92,36 +94,41 @@ func (s *Store) CreateAuthRequest(_ context.Context, r *oidc.AuthRequest, userID
 	return a, nil
 }
 
-func (s *Store) AuthRequestByID(_ context.Context, id string) (op.AuthRequest, error) {
+func (s *Store) AuthRequestByID(ctx context.Context, id string) (op.AuthRequest, error) {
 	if err := s.enter("AuthRequestByID", id); err != nil {
 		return nil, err
 	}
 	s.mu.Lock()
 	defer s.mu.Unlock()
-	if a, ok := s.authReqs[id]; ok {
+	if a, ok := s.authReqOf(s.tenant(ctx), id); ok {
 		return a, nil
 	}
 	return nil, errNoAuthRequest
 }
 
-func (s *Store) AuthRequestByCode(_ context.Context, code string) (op.AuthRequest, error) {
+func (s *Store) AuthRequestByCode(ctx context.Context, code string) (op.AuthRequest, error) {
 	if err := s.enter("AuthRequestByCode", s.codeLabel(code)); err != nil {
 		return nil, err
 	}
 	s.mu.Lock()
 	defer s.mu.Unlock()
-	if a, ok := s.authReqs[s.codes[code]]; ok {
+	if a, ok := s.authReqOf(s.tenant(ctx), s.codes[code]); ok {
 		return a, nil
 	}
 	return nil, errors.New("code invalid or expired")
 }
 
-func (s *Store) SaveAuthCode(_ context.Context, id, code string) error {
+func (s *Store) SaveAuthCode(ctx context.Context, id, code string) error {
 	if err := s.enter("SaveAuthCode", id); err != nil {
 		return err
 	}
 	s.mu.Lock()
 	defer s.mu.Unlock()
+	if _, known := s.authReqs[id]; known {
+		if _, visible := s.authReqOf(s.tenant(ctx), id); !visible {
+			return errNoAuthRequest // a request of another tenant
+		}
+	}
 	s.codes[code] = id
 	if a, ok := s.authReqs[id]; ok {
 		a.Code = code
@@ -129,12 +136,17 @@ func (s *Store) SaveAuthCode(_ context.Context, id, code string) error {
 	return nil
 }
 
-func (s *Store) DeleteAuthRequest(_ context.Context, id string) error {
+func (s *Store) DeleteAuthRequest(ctx context.Context, id string) error {
 	if err := s.enter("DeleteAuthRequest", id); err != nil {
 		return err
 	}
 	s.mu.Lock()
 	defer s.mu.Unlock()
+	if _, known := s.authReqs[id]; known {
+		if _, visible := s.authReqOf(s.tenant(ctx), id); !visible {
+			return nil // a request of another tenant: nothing of this tenant to delete
+		}
+	}
 	delete(s.authReqs, id)
 	for code, rid := range s.codes {
 		if rid == id {
